@@ -202,6 +202,21 @@ def check(run, ctx):
         elif isinstance(st, ast.Break):
             run.finding(W3, "_collect_files_fast", "break-unguarded", "unconditional break in the walk loop", f.loc)
     (run.ok(W3, "dirs[:] pruning", "in-place slice assignment filtered by _should_include_dir") if idx_prune is not None else run.finding(W3, "_collect_files_fast", "no-prune", "dirs[:] is not pruned in place with _should_include_dir", f.loc))
+    # ... and by nothing else: every other reduction of `dirs` (a second slice assignment, remove/clear/del, an extra
+    # condition in the comprehension) prunes whole sub-trees by a predicate that was written for something else
+    extra = []
+    for n in ast.walk(loop):
+        if isinstance(n, ast.Assign) and isinstance(n.targets[0], ast.Subscript) and isinstance(n.targets[0].value, ast.Name) and n.targets[0].value.id == dirs_name:
+            if not (isinstance(n.value, ast.ListComp) and len(n.value.generators) == 1 and len(n.value.generators[0].ifs) == 1 and is_call_named(n.value.generators[0].ifs[0], "_should_include_dir")):
+                extra.append(n)
+        if isinstance(n, ast.Call) and isinstance(n.func, ast.Attribute) and n.func.attr in ("remove", "clear", "pop") and isinstance(n.func.value, ast.Name) and n.func.value.id == dirs_name:
+            extra.append(n)
+        if isinstance(n, ast.Delete) and any(dirs_name in ast.unparse(t) for t in n.targets):
+            extra.append(n)
+    if extra:
+        run.finding(W3, "_collect_files_fast", f"extra-dir-pruning:{norm(extra[0])[:60]}", f"_collect_files_fast also prunes sub-directories by `{norm(extra[0])[:80]}`: a predicate meant for files (a repository ignore pattern without trailing slash, `*.d`, `snapshots`) can match a directory's own path while the files inside it do not match, and the whole sub-tree is never walked - the directory run is no longer the union of its files", f"{f.module.rel}:{extra[0].lineno}")
+    else:
+        run.ok(W3, "dirs[:] pruning only by _should_include_dir", "no other reduction of the directory list")
     (run.ok(W3, "collect", "files of each visited directory are collected") if idx_collect is not None else run.finding(W3, "_collect_files_fast", "no-collect", "filenames of the visited directory are not collected", f.loc))
     if idx_break is None:
         run.finding(W3, "_collect_files_fast", "no-break", "no break for the non-recursive case", f.loc)
